@@ -2,6 +2,7 @@
 // Per sampled case: EVERY workspace length (step 4 bytes, both alignments), EVERY failing position among the
 // factor-growth requests (transient and persisting), and the size query through the entry point.
 #include <algorithm>
+#include <cstring>
 #include <functional>
 #include "gen_common.h"
 
@@ -47,8 +48,39 @@ Case gen_C08(uint64_t seed, long run, const GenCfg &g, const char *inflight) {
 
 struct C08Ctx {
     const Case &c; const TaskPlan &plan; int mi; RunOutcome &out; PlanRun ref; uint64_t budget; Hash64 h; std::vector<EnvSpec> failing; bool ilu; bool ref_singular = false;
+    // re-use step in an exhausted workspace: {new, fresh factorization, SamePattern_SameRowPerm with unrelated values, destroy}
+    TaskPlan plan2; PlanRun ref2; int have2 = 0; // 0 not built, 1 usable, -1 not applicable
     C08Ctx(const Case &cc, RunOutcome &o) : c(cc), plan(cc.tasks[0]), mi(c08_main_op(cc.tasks[0])), out(o), budget(0), ilu(false) {}
 };
+
+static ExecCfg c08_cfg(uint64_t budget);
+static TaskPlan c08_reuse_env(const C08Ctx &x, const EnvSpec &e) {
+    TaskPlan q = x.plan2; if (e.fill > 0) q.tuning[5] = e.fill; q.garbage = e.garbage;
+    q.ops[1].lwork = e.lwork; q.ops[1].align = e.align; q.ops[1].wsgarbage = e.wsgarbage; q.ops[1].faults.clear();
+    q.ops[2].lwork = e.lwork; q.ops[2].align = e.align; q.ops[2].wsgarbage = e.wsgarbage; q.ops[2].faults = e.faults; // storage faults hit the re-use step only
+    return q;
+}
+static bool c08_build_reuse(C08Ctx &x) {
+    if (x.have2) return x.have2 > 0;
+    x.have2 = -1;
+    const Op &mo = x.plan.ops[x.mi]; const Mat &A = x.plan.mats[0];
+    if (!(mo.kind == "gssvx" || mo.kind == "pipe") || x.ref_singular) return false;
+    bool cplx = (x.plan.dtype == 'c' || x.plan.dtype == 'z');
+    x.plan2 = x.plan; Op f0 = mo; f0.faults.clear(); Op f2 = f0; f2.fact = SamePattern_SameRowPerm; f2.vchange = "unrelated"; f2.rhs_seed = mo.rhs_seed ^ 0x2222;
+    // first factorization: values dominant on the structural transversal (hardly any row interchange, little fill) in two thirds of
+    // the cases, so that the re-use step - unrelated values, remembered pivots abandoned - needs MORE room than the compacted arrays have
+    { Rng vr(mix3(x.c.sched_seed, 44, 0)); Mat T = A; gen_values(vr, T, "uniform", cplx); f2.re = T.re; f2.im = T.im;
+      if (vr.below(3) != 0) { Mat D = A; gen_values(vr, D, "dominant", cplx); f0.re = D.re; f0.im = D.im; f0.vchange = "dominant"; } }
+    Op ds; ds.kind = "destroy";
+    x.plan2.ops = {x.plan.ops[0], f0, f2, ds};
+    EnvSpec re; re.lwork = 0; re.fill = x.plan.tuning[5]; re.garbage = G_ZERO;
+    x.ref2 = run_plan_single(c08_reuse_env(x, re), c08_cfg(0));
+    x.h.u64(x.ref2.evhash); x.out.stats["enumerated_runs"] += 1;
+    const OpResult &r2 = x.ref2.trace[2];
+    for (size_t i = 0; i < x.ref2.trace.size(); i++) for (auto &v : x.ref2.trace[i].violations) { size_t bar = v.find('|'); x.out.violations.push_back({v.substr(0, bar), "reference run of the re-use step, op " + std::to_string(i) + ": " + v.substr(bar + 1), "C08|" + v.substr(0, bar) + "|" + mo.kind + "|reuse-reference"}); }
+    if (r2.skipped || !(r2.cls == XC_OK || r2.cls == XC_ILLCOND)) return false; // (a re-use step that meets an exactly-zero pivot: recorded finding KF1, clean memory only - not enumerated)
+    x.have2 = 1; return true;
+}
 
 static ExecCfg c08_cfg(uint64_t budget) {
     ExecCfg c; c.chk_structure = true; c.chk_identity = false; c.chk_residual = false; c.chk_resolve_pure = false; c.capture = true;
@@ -60,13 +92,19 @@ static ExecCfg c08_cfg(uint64_t budget) {
 static long c08_one(C08Ctx &x, const EnvSpec &e0, const char *what) {
     EnvSpec e = e0;
     if (x.ref_singular) { e.garbage |= G_CLEAN_GROWTH; e.wsgarbage = G_ZERO; } // known finding KF-zero-pivot: for singular inputs the growable factor arrays and the workspace are handed out zeroed
-    TaskPlan q = apply_env(x.plan, e);
-    PlanRun pr = run_plan_single(q, c08_cfg(x.budget));
+    bool reuse = strncmp(what, "reuse", 5) == 0;
+    if (reuse && !c08_build_reuse(x)) return -1;
+    TaskPlan q = reuse ? c08_reuse_env(x, e) : apply_env(x.plan, e);
+    PlanRun pr = run_plan_single(q, c08_cfg(reuse ? 2 * x.budget : x.budget));
     x.h.u64(pr.evhash);
     x.out.stats["enumerated_runs"] += 1;
     x.out.stats["sim_edges"] += (double)pr.steps;
-    const OpResult &r = pr.trace[x.mi]; const OpResult &rr = x.ref.trace[x.mi];
+    int mi = reuse ? 2 : x.mi;
+    const OpResult &r = pr.trace[mi]; const OpResult &rr = reuse ? x.ref2.trace[2] : x.ref.trace[x.mi];
     const Op &mo = x.plan.ops[x.mi];
+    if (reuse) { x.out.stats["reuse_runs"] += 1; if (r.skipped) { x.out.stats["reuse_runs_first_step_short"] += 1; }
+                 else { if (e.lwork > 0) { x.out.stats[std::string("reuse_user_exit_") + kExitName[r.cls]] += 1; if (r.growth_reqs > 0) x.out.stats["probe_reuse_user_mode_growth_requests"] += 1; }
+                        if (r.expansions > 0 && e.lwork > 0) x.out.stats["probe_reuse_user_mode_expansion"] += 1; if (r.permr_changed) x.out.stats["probe_reuse_pivot_abandoned"] += 1; } }
     std::string mode = e.lwork > 0 ? "user" : "system";
     bool bad = false;
     auto add = [&](const std::string &orc, const std::string &det) {
@@ -188,6 +226,32 @@ RunOutcome exec_C08(const Case &c) {
         }
         s << ",\"growth_requests\":" << G;
         out.stats["max_growth_requests"] = G;
+    }
+    // ---- 2b. the re-use step (SamePattern_SameRowPerm with unrelated values: other pivots, other fill) in a workspace that the first
+    //          factorization nearly or exactly fills, at a ladder of lengths and both alignments; and every failing position among
+    //          the growth requests of the re-use step under library allocation. Outcome: info > n, or bit-identical to the re-use
+    //          step after a first factorization under library allocation ----
+    if (c08_build_reuse(x)) {
+        long runs2 = 0;
+        for (int align = 0; align <= 4; align += 4) {
+            EnvSpec e; e.fill = plan.tuning[5]; e.align = align; e.garbage = plan.garbage; e.wsgarbage = (int)((c.sched_seed >> (align + 9)) % G_NUM);
+            int probes = 0;
+            TaskPlan first = x.plan2; first.ops = {x.plan2.ops[0], x.plan2.ops[1], x.plan2.ops[3]};
+            long lmin = find_min_lwork(first, e, ample_lwork(A, plan.tuning, e.fill, cplx), &probes, nullptr);
+            out.stats["enumerated_runs"] += probes;
+            if (lmin < 0) continue;
+            std::vector<long> ls; for (int k = 0; k < (c.prior_plans ? 6 : 12); k++) ls.push_back(lmin + 4 * k);
+            for (int j = 1; j <= (c.prior_plans ? 6 : 10); j++) ls.push_back((lmin + lmin * j / 12) / 4 * 4);
+            ls.push_back(lmin + 1); ls.push_back(lmin + 2); ls.push_back(2 * lmin + 64);
+            for (long lw : ls) { e.lwork = lw; c08_one(x, e, "reuse-length"); runs2++; }
+        }
+        int G2 = x.ref2.trace[2].growth_reqs;
+        for (int k = 1; k <= G2 + 1; k++) for (int persist = 0; persist <= 1; persist++) {
+            EnvSpec e; e.lwork = 0; e.fill = plan.tuning[5]; e.garbage = plan.garbage;
+            FaultSpec f; f.k = k; f.persist = persist != 0; e.faults.push_back(f);
+            c08_one(x, e, persist ? "reuse-enomem-persist" : "reuse-enomem-once"); runs2++;
+        }
+        s << ",\"reuse_runs\":" << runs2 << ",\"reuse_growth_requests\":" << G2;
     }
 query:
     // ---- 3. size query through this entry point ----
